@@ -33,12 +33,13 @@ pass the 424 tests, and need something specific to manifest, with a demonstratio
 here in a fresh scratch worktree (`tools/seeded.py`), then applied to `/repo`, the property's quick
 check run, and undone (`tools/try_patch.py`). Kept under `/verif/seeded/<name>/` (`patch.diff`, `demo/`,
 `meta.json`). %d changes, %d caught by the quick tier as it stands now. The last column says what
-had to be strengthened for changes the checks missed at first. Three full rounds and a fourth on ten properties were run (m1/m2, m3/m4,
+had to be strengthened for changes the checks missed at first. Three full rounds and a fourth on fifteen properties were run (m1/m2, m3/m4,
 m5/m6, m7/m8 per property; later rounds were told the titles of the earlier changes and asked for harder
 ones, in particular for interactions between the event-loop glue and the core): the quick tier
-missed 8 of 40 in round 1, 14 of 41 in round 2, 15 of 41 in round 3 and 10 of 20 in round 4 before it was
-strengthened; two round-4 changes are still not caught and are kept as such (`C19-m8`, `C20-m8`: their
-`meta.json` and the last column say why) -
+missed 8 of 40 in round 1, 14 of 41 in round 2, 15 of 41 in round 3 and 16 of 29 in round 4 before it was
+strengthened; three round-4 changes are still not caught and are kept as such (`C10-m8`, `C19-m8`,
+`C20-m8`: their `meta.json` and the last column say why - process start-up wiring, wall-clock slowness
+inside a synchronous call, tokio's multi-threaded scheduler) -
 new engines (W for eight more properties, S, X, R), new fault kinds (lost REG2 replies, client re-bind,
 bind failures and a stalled subscriber on the real loop, a stalled reader with large events on the
 control socket, deep bursts), and monitors made independent of implementation state they had been
